@@ -10,7 +10,7 @@ import (
 
 // C02: Intersects is exact planar intersection and symmetric.
 
-func c02Judge(c *mon.Ctx, a, b *exact.Shape, family string, closedA bool, cfgs []IdxCfg, objLevel bool) {
+func c02Judge(c *mon.Ctx, a, b *exact.Shape, family string, closedA bool, cfgs []IdxCfg, objLevel, scaled bool) {
 	want := exact.Intersects(a, b)
 	if exact.Intersects(b, a) != want {
 		panic("oracle self-check: exact.Intersects is not symmetric")
@@ -38,6 +38,20 @@ func c02Judge(c *mon.Ctx, a, b *exact.Shape, family string, closedA bool, cfgs [
 			}
 		}
 	})
+	if scaled {
+		sc := libScales[int(uint64(hashShape(mon.NewH(), b))%uint64(len(libScales)))]
+		c.Try(func() {
+			ic := cfgs[len(cfgs)-1]
+			la, lb := buildLibScaled(a, ic, closedA, sc), buildLibScaled(b, ic, !closedA, sc)
+			ab, ba := gIntersects(la, lb), gIntersects(lb, la)
+			c.Eval()
+			c.Count("scaled_pairs")
+			if ab != want || ba != want {
+				c.Violation("intersects-scaled", fmt.Sprintf("%s/%s with every coordinate multiplied by %g: A.Intersects(B)=%v B.Intersects(A)=%v, exact=%v", a.Kind, b.Kind, sc, ab, ba, want),
+					pairCase(a, b, map[string]interface{}{"family": family, "index": ic.String(), "closed_a": closedA, "scale": sc, "a_intersects_b": ab, "b_intersects_a": ba, "want": want}))
+			}
+		})
+	}
 	c.Count(fmt.Sprintf("pairs_%s_%s", a.Kind, b.Kind))
 	if want {
 		c.Count(fmt.Sprintf("true_%s_%s", a.Kind, b.Kind))
@@ -60,7 +74,7 @@ func c02Run(c *mon.Ctx) {
 		if !corpus {
 			cfgs = idxFor(max(len(a.Ext), len(a.Pts)), n)
 		}
-		c02Judge(c, a, b, family, closedA, cfgs, !corpus || item%7 == 0)
+		c02Judge(c, a, b, family, closedA, cfgs, !corpus || item%7 == 0, (corpus && item%3 == 0) || (!corpus && n%4 == 0))
 		if boxesMeet(a, b) {
 			c.NonTrivial(uint64(hashShape(hashShape(mon.NewH(), a), b)))
 		}
@@ -98,7 +112,7 @@ func c02Replay(kind string, raw json.RawMessage) (bool, string) {
 }
 
 func init() {
-	must := []string{"corpus_done"}
+	must := []string{"corpus_done", "scaled_pairs"}
 	for _, ka := range kinds4 {
 		for _, kb := range kinds4 {
 			must = append(must, fmt.Sprintf("pairs_%s_%s", ka, kb))
